@@ -26,7 +26,7 @@ type AuditField struct {
 	Val  []byte
 }
 
-func be(n int, v uint64) []byte {
+func auditBE(n int, v uint64) []byte {
 	b := make([]byte, 8)
 	binary.BigEndian.PutUint64(b, v)
 	return b[8-n:]
@@ -35,8 +35,8 @@ func be(n int, v uint64) []byte {
 // AuditFields lists every field of an entry: integers as fixed-width big-endian bytes.
 func AuditFields(e *auditlog.Entry) []AuditField {
 	fs := []AuditField{
-		{"Version", be(2, uint64(e.Version))},
-		{"Timestamp", be(8, uint64(e.Timestamp.UnixNano()))},
+		{"Version", auditBE(2, uint64(e.Version))},
+		{"Timestamp", auditBE(8, uint64(e.Timestamp.UnixNano()))},
 		{"Type", []byte(e.Type)},
 	}
 	switch d := e.Details.(type) {
@@ -47,7 +47,7 @@ func AuditFields(e *auditlog.Entry) []AuditField {
 			AuditField{"Log.Resource.Bucket", []byte(d.Resource.Bucket)},
 			AuditField{"Log.Resource.Key", []byte(d.Resource.Key)},
 			AuditField{"Log.Resource.UploadID", []byte(d.Resource.UploadID)},
-			AuditField{"Log.Resource.PartNumber", be(4, uint64(uint32(d.Resource.PartNumber)))},
+			AuditField{"Log.Resource.PartNumber", auditBE(4, uint64(uint32(d.Resource.PartNumber)))},
 			AuditField{"Log.Resource.SourceBucket", []byte(d.Resource.SourceBucket)},
 			AuditField{"Log.Resource.SourceKey", []byte(d.Resource.SourceKey)},
 			AuditField{"Log.Actor.CredentialID", []byte(d.Actor.CredentialID)},
@@ -55,11 +55,11 @@ func AuditFields(e *auditlog.Entry) []AuditField {
 			AuditField{"Log.Request.RequestID", []byte(d.Request.RequestID)},
 			AuditField{"Log.Request.TraceID", []byte(d.Request.TraceID)},
 			AuditField{"Log.Request.ClientIP", []byte(d.Request.ClientIP)},
-			AuditField{"Log.Outcome.StatusCode", be(4, uint64(uint32(d.Outcome.StatusCode)))},
+			AuditField{"Log.Outcome.StatusCode", auditBE(4, uint64(uint32(d.Outcome.StatusCode)))},
 			AuditField{"Log.Outcome.Outcome", []byte(d.Outcome.Outcome)},
 			AuditField{"Log.Outcome.ErrorCode", []byte(d.Outcome.ErrorCode)},
 			AuditField{"Log.Outcome.Error", []byte(d.Outcome.Error)},
-			AuditField{"Log.Outcome.DurationMs", be(8, uint64(d.Outcome.DurationMs))},
+			AuditField{"Log.Outcome.DurationMs", auditBE(8, uint64(d.Outcome.DurationMs))},
 		)
 	case *auditlog.GroundingDetails:
 		fs = append(fs,
@@ -112,7 +112,7 @@ func AuditClone(e *auditlog.Entry) *auditlog.Entry {
 	return &c
 }
 
-func beU(b []byte) uint64 {
+func auditBEU(b []byte) uint64 {
 	var v uint64
 	for _, x := range b {
 		v = v<<8 | uint64(x)
@@ -125,10 +125,10 @@ func beU(b []byte) uint64 {
 func AuditSet(e *auditlog.Entry, name string, v []byte) bool {
 	switch name {
 	case "Version":
-		e.Version = uint16(beU(v))
+		e.Version = uint16(auditBEU(v))
 		return true
 	case "Timestamp":
-		e.Timestamp = time.Unix(0, int64(beU(v)))
+		e.Timestamp = time.Unix(0, int64(auditBEU(v)))
 		return true
 	case "Type":
 		e.Type = auditlog.EntryType(v)
@@ -171,7 +171,7 @@ func AuditSet(e *auditlog.Entry, name string, v []byte) bool {
 		case "Log.Resource.UploadID":
 			d.Resource.UploadID = s
 		case "Log.Resource.PartNumber":
-			d.Resource.PartNumber = int32(uint32(beU(v)))
+			d.Resource.PartNumber = int32(uint32(auditBEU(v)))
 		case "Log.Resource.SourceBucket":
 			d.Resource.SourceBucket = s
 		case "Log.Resource.SourceKey":
@@ -187,7 +187,7 @@ func AuditSet(e *auditlog.Entry, name string, v []byte) bool {
 		case "Log.Request.ClientIP":
 			d.Request.ClientIP = s
 		case "Log.Outcome.StatusCode":
-			d.Outcome.StatusCode = int32(uint32(beU(v)))
+			d.Outcome.StatusCode = int32(uint32(auditBEU(v)))
 		case "Log.Outcome.Outcome":
 			d.Outcome.Outcome = auditlog.OutcomeType(s)
 		case "Log.Outcome.ErrorCode":
@@ -195,7 +195,7 @@ func AuditSet(e *auditlog.Entry, name string, v []byte) bool {
 		case "Log.Outcome.Error":
 			d.Outcome.Error = s
 		case "Log.Outcome.DurationMs":
-			d.Outcome.DurationMs = int64(beU(v))
+			d.Outcome.DurationMs = int64(auditBEU(v))
 		default:
 			return false
 		}
@@ -475,10 +475,10 @@ func AuditCtx(r *Rng, tag string) context.Context {
 // AuditRandArgs draws arguments: valid names, keys with spaces / unicode / separators.
 func AuditRandArgs(r *Rng) AuditArgs {
 	buckets := []string{"alpha", "beta-bucket", "gamma.logs", "b00"}
-	keys := []string{"a", "dir/file.txt", "with space", "ünï/ço∂é", "x/y/z/" + itoa(int64(r.Intn(50))), "k<&>\"quote", "tab\tkey", "long-" + strings.Repeat("k", 1+r.Intn(40))}
+	keys := []string{"a", "dir/file.txt", "with space", "ünï/ço∂é", "x/y/z/" + auditItoa(int64(r.Intn(50))), "k<&>\"quote", "tab\tkey", "long-" + strings.Repeat("k", 1+r.Intn(40))}
 	return AuditArgs{
 		Bucket: Pick(r, buckets), SrcBucket: Pick(r, buckets),
 		Key: Pick(r, keys), SrcKey: Pick(r, keys),
-		UploadID: "up-" + itoa(int64(1+r.Intn(9))), Part: int32(1 + r.Intn(10000)),
+		UploadID: "up-" + auditItoa(int64(1+r.Intn(9))), Part: int32(1 + r.Intn(10000)),
 	}
 }
